@@ -51,6 +51,8 @@ def runs(prop, tier):
           [[t, "--n", 4, "--alpha", "A3", "--ks", ks_q] for t in ("@log", "@noinv")] + [[t, "--n", 5, "--alpha", "A2", "--ks", ks_q] for t in ("@log", "@noinv")]),
          ("another graph type (vertex property present, edge_weight behind an edge_index property): G(4) x A3, G(5) x A2, k in {%s}" % ks_q,
           [["@altgraph", "--n", 4, "--alpha", "A3", "--ks", ks_q], ["@altgraph", "--n", 5, "--alpha", "A2", "--ks", ks_q]]),
+         ("huge k used as infinity (k = 2^31 and k = SIZE_MAX/2), weight types double and long: G(4) x A3, G(5) x A2",
+          [["--n", 4, "--alpha", "A3", "--ks", "2147483648,9223372036854775807"], ["@long", "--n", 4, "--alpha", "A3", "--ks", "2147483648,9223372036854775807"], ["@long", "--n", 5, "--alpha", "A2", "--ks", "9223372036854775807"]]),
          ("theta graphs with chords (11 vertices, many non-spanner edges competing for one heavy edge): edge #0 = 1000, every other edge over {1,2}, both orientations",
           [["--families", "thetac:3:4", "--alpha", "A2H", "--ks", "2,3", "--wchunks", 32, "--orient", o] for o in (0, 1)]),
          ("fixed menu: 1200 pseudo-random sparse graphs n=8..20 x 3 pseudo-random weightings in 1..9, and x every one-heavy-edge weighting for n <= 12",
